@@ -61,3 +61,40 @@ Example C08_nonvacuous :
   /\ conv_lookup f8_world src_cfg (urun f8_world src_cfg src_csrc (build f8_world src_cfg src_csrc true [])
        [URegFactory DUn 1 7 true WSelf; UGet DUn 100 true; URegFunc DUn 1 (HUser 9); UGet DUn 100 true]) DUn 100 = HUser 9.
 Proof. split; [repeat constructor | vm_compute; reflexivity]. Qed.
+Local Close Scope N_scope.
+
+(* ---- what the CACHED hooks compute: generated class hooks and reference cycles (gen/__init__.py) ----
+   The dispatch theorems above say WHICH hook a lookup returns.  A generated class hook additionally captures, at generation time,
+   the hooks of its attributes -- except where a reference cycle forces late binding, and which attribute that is depends on the
+   entry point of the first use (Model/LateBinding.v).  For the late binding translator T1 reads off the current source (the call
+   keeps the declared type): for EVERY class graph, class c and value, the hooks generated for c under ANY two working sets -- from
+   any two entry points, in any order of earlier calls, by any thread -- agree wherever both answer, and what they compute is the
+   documented encoding of the value as c.  So caching whichever of them was generated first changes nothing (findings F34, F36). *)
+From V.Model Require Import LateBinding.
+From V.Gen Require Import LateSrc.
+From V.Proofs Require Import LateBindingProofs.
+
+Lemma src_late_binding_keeps_the_declared_type : src_late_unstructure_by_declared = true.
+Proof. reflexivity. Qed.
+
+Theorem C08_generated_hooks_do_not_depend_on_the_entry_point :
+  forall (classes : N -> option (list (N * N))) (k1 k2 : nat) (ws1 ws2 : list N) (c : N) (n : nat) (v : lval) (r1 r2 : lout),
+    hook_sem classes src_late_unstructure_by_declared k1 ws1 c n v = Some r1 ->
+    hook_sem classes src_late_unstructure_by_declared k2 ws2 c n v = Some r2 ->
+    r1 = r2 /\ spec classes n c v = Some r1.
+Proof.
+  intros classes k1 k2 ws1 ws2 c n v r1 r2. rewrite src_late_binding_keeps_the_declared_type. intros H1 H2.
+  split; [exact (entry_point_irrelevant classes k1 k2 ws1 ws2 c n v r1 r2 H1 H2) | exact (hook_is_spec classes k1 ws1 c n v r1 H1)].
+Qed.
+Print Assumptions C08_generated_hooks_do_not_depend_on_the_entry_point.
+
+(* with a late binding that dispatches on the class of the VALUE (the code before /repo 3399ab1; still the TypedDict generator, finding
+   F35: src_td_late_unstructure_by_declared = false) the entry point matters *)
+Theorem C08_runtime_class_late_binding_refuted :
+  exists (classes : N -> option (list (N * N))) (ws1 ws2 : list N) (c : N) (v : lval) (r1 r2 : lout),
+    hook_sem classes false 9 ws1 c 9 v = Some r1 /\ hook_sem classes false 9 ws2 c 9 v = Some r2 /\ r1 <> r2.
+Proof.
+  destruct runtime_class_late_binding_refuted as (ws1 & ws2 & r1 & r2 & H1 & H2 & Hne).
+  exists lb_classes, ws1, ws2, 1%N, lb_value, r1, r2. auto.
+Qed.
+Print Assumptions C08_runtime_class_late_binding_refuted.
